@@ -15,8 +15,32 @@ func (e *Engine) newFT(fn *ssa.Function) *FT {
 
 // verifyFunc generates the obligations of fn against its contract (fc may be
 // nil: only safety obligations / site assertions are generated).
-func (e *Engine) verifyFunc(fn *ssa.Function, fc *FuncContract, safety bool) *FT {
+// verifyFuncAll: one FT per specialisation variant (usually one).
+func (e *Engine) verifyFuncAll(fn *ssa.Function, fc *FuncContract, safety bool) []*FT {
+	if fc == nil || len(fc.Specialize) == 0 {
+		return []*FT{e.verifyFunc(fn, fc, safety, nil, "")}
+	}
+	var out []*FT
+	env := &SpecEnv{ft: &FT{e: e}, pkg: e.pkgOf(fn).Pkg}
+	it, err := env.resolveType(fc.Specialize[0])
+	if err != nil {
+		e.cerrors = append(e.cerrors, fmt.Sprintf("%s: specialize: %v", fc.Name, err))
+		return nil
+	}
+	for _, impl := range e.implementingTypes(it) {
+		name := typeName(impl)
+		out = append(out, e.verifyFunc(fn, fc, safety, map[string]types.Type{types.TypeString(it, nil): impl}, name))
+	}
+	if len(out) == 0 {
+		e.cerrors = append(e.cerrors, fmt.Sprintf("%s: specialize %s: no implementations", fc.Name, fc.Specialize[0]))
+	}
+	return out
+}
+
+func (e *Engine) verifyFunc(fn *ssa.Function, fc *FuncContract, safety bool, devirt map[string]types.Type, variant string) *FT {
 	ft := e.newFT(fn)
+	ft.devirt = devirt
+	ft.variant = variant
 	saved := e.safetyMode
 	e.safetyMode = safety
 	defer func() { e.safetyMode = saved }()
@@ -76,6 +100,14 @@ func (e *Engine) verifyFunc(fn *ssa.Function, fc *FuncContract, safety bool) *FT
 			}
 			ft.assume("true", fact)
 		}
+		for _, in := range fc.Inits {
+			v, err := env.eval(in.E)
+			if err != nil {
+				e.contractError(in, err)
+				continue
+			}
+			ft.setHeap(st, e.ghostHeap(in.Label), v.T.S)
+		}
 		// vacuity: the preconditions are satisfiable
 		if len(fc.Requires) > 0 {
 			o := fr.oblig("cover/entry", allProps(fc), fn.Pos(), "requires satisfiable", "true", "true")
@@ -99,7 +131,8 @@ func (e *Engine) verifyFunc(fn *ssa.Function, fc *FuncContract, safety bool) *FT
 				accs[i] = &goalAcc{c: c}
 			}
 			for _, x := range exits {
-				env := fr.ownEnv(x.st, fr.entry, nil)
+				env := fr.ownEnv(x.st, fr.entry, x.block)
+				env.tolerant = true
 				if kind == "post" {
 					var res Val
 					if len(x.results) == 1 {
